@@ -47,7 +47,8 @@ def validate_traces(ctx, trace_files, canary=True, tag="traces"):
     """concatenate traces, plant canaries, run LifecycleTrace; returns (all ids, accepted ids, canary ids)"""
     allp = os.path.join(ctx.work, "traces_%s.ndjson" % tag)
     ids, canaries = [], []
-    first_exact = None
+    first_exact = None      # any generated-program trace with a long enough last request
+    first_miss = None       # ... whose last request went recv hash miss fetch (no pass path: the store is determined)
     with open(allp, "w") as out:
         for tf in trace_files:
             with open(tf) as f:
@@ -60,18 +61,26 @@ def validate_traces(ctx, trace_files, canary=True, tag="traces"):
                         continue
                     ids.append(tr["id"])
                     out.write(json.dumps(tr) + "\n")
-                    if first_exact is None and tr["reqs"][0].get("exact") and len(tr["reqs"][-1]["flows"]) >= 4:
-                        first_exact = tr
+                    last = tr["reqs"][-1]
+                    if last.get("exact") and len(last["flows"]) >= 4 and last["outcome"] == "ok":
+                        if first_exact is None:
+                            first_exact = tr
+                        if first_miss is None and last["restarts"] == 0 and "miss" in last["flows"] and "fetch" in last["flows"] \
+                                and "pass" not in last["flows"] and last.get("knowAfter"):
+                            first_miss = tr
         if canary:
             if first_exact is None:
                 raise MachineryFault("no trace to derive canaries from")
-            # canary 1: one flow entry corrupted; canary 2: restart count off by one; canary 3: X-Cache flipped
+            # canary 1: two flow entries swapped; canary 2: restart count off by one; canary 3: stored-after flag flipped
             c1 = json.loads(json.dumps(first_exact)); c1["id"] = "canary-flow"
             fl = c1["reqs"][-1]["flows"]; fl[-2], fl[-1] = fl[-1], fl[-2]
             c2 = json.loads(json.dumps(first_exact)); c2["id"] = "canary-restarts"; c2["reqs"][-1]["restarts"] += 1
-            c3 = json.loads(json.dumps(first_exact)); c3["id"] = "canary-stored"
-            c3["reqs"][-1]["storedAfter"] = not c3["reqs"][-1]["storedAfter"]
-            for c in (c1, c2, c3):
+            cs = [c1, c2]
+            if first_miss is not None:
+                c3 = json.loads(json.dumps(first_miss)); c3["id"] = "canary-stored"
+                c3["reqs"][-1]["storedAfter"] = not c3["reqs"][-1]["storedAfter"]
+                cs.append(c3)
+            for c in cs:
                 out.write(json.dumps(c) + "\n")
                 canaries.append(c["id"])
     res = ctx.tlc("LifecycleTrace", extra_files=[allp], defines={"TraceFile": '"%s"' % os.path.basename(allp)},
